@@ -93,8 +93,8 @@ Section Cmp.
   Lemma casefold_total_preorder :
     total_preorder_on (fun _ => True) (flag_cmp infer nat_less Fc) /\ total_preorder_on (fun _ => True) (flag_cmp infer nat_less Fcr).
   Proof.
-    assert (H : total_preorder_on (fun _ : bytes => True) (case_cmp infer))
-      by exact (total_preorder_key (fun _ => True) (fold_text infer) lex_cmp lex_preorder).
+    assert (H : total_preorder_on (fun _ : bytes => True) case_cmp)
+      by exact (total_preorder_key (fun _ => True) fold_text lex_cmp lex_preorder).
     split; [exact H|exact (total_preorder_flip _ _ H)].
   Qed.
 
@@ -482,12 +482,6 @@ Lemma nat_cycle_witness :
   flag_cmp dinfer natsort_less Ft (B "9") (B "10") < 0 /\ flag_cmp dinfer natsort_less Ft (B "10") (B "100000000000000000000") < 0
   /\ flag_cmp dinfer natsort_less Ft (B "100000000000000000000") (B "9") < 0.
 Proof. vm_compute. repeat split; reflexivity. Qed.
-Lemma nat_chain_witness :
-  less dinfer natsort_less [Ft; Ff] [B "01"; B "z"] [B "1"; B "y"] = false /\ less dinfer natsort_less [Ft; Ff] [B "1"; B "y"] [B "01"; B "z"] = false
-  /\ less dinfer natsort_less [Ft; Ff] [B "01"; B "z"] [B "1"; B "z"] = false /\ less dinfer natsort_less [Ft; Ff] [B "1"; B "z"] [B "01"; B "z"] = false
-  /\ less dinfer natsort_less [Ft; Ff] [B "1"; B "y"] [B "1"; B "z"] = true.
-Proof. vm_compute. repeat split; reflexivity. Qed.
-
 Inductive keys_ascending : record -> Prop :=
 | ka_nil : keys_ascending []
 | ka_one f : keys_ascending [f]
